@@ -219,6 +219,12 @@ def shape_corpus():
     a(mk("nullable_skip_prio", [tok("x")], [skip("[ \t]*", prio=5)]))
     a(mk("nullable_sub", [rx("(?&o)"), tok("b")], subs=[("o", "x?")]))
     a(mk("nullable_look", [rx("$"), tok("b")]))
+    # nullable although regex-syntax reports no minimum length: a class that matches nothing, optional, in an optional rest
+    a(mk("nullable_never_opt", [rx("[a-z]*[^\\s\\S]?"), tok("1")], [skip(" +")]))
+    a(mk("nullable_never_star", [rx("[a&&b]*x?"), tok("1")]))
+    a(mk("nullable_never_alt", [rx("([a-z]+|[^\\s\\S]*)"), tok("1")]))
+    a(mk("nullable_never_bytes", [rx(b"[a-z]*(?-u:[^\\x00-\\xff])?"), tok(b"1")], utf8=False))
+    a(mk("nullable_never_skip", [tok("1")], [skip("[ ]*[^\\s\\S]?")]))
     a(mk("start_look", [rx("^a"), tok("b")]))
     a(mk("start_wordb", [rx(r"(?-u:\b)a"), tok("b")]))
     a(mk("undef_sub", [rx("(?&nope)a"), tok("b")]))
@@ -365,5 +371,5 @@ def class_defs(name, rs):
 # no longer exercises what it was written for.
 REJECTED_SHAPES = {'comment', 'la_notb', 'la_notb2', 'la_skip', 'luts', 'bytes_in_str', 'tie_masked_partly', 'amb_cls', 'amb_tok_rx', 'amb_three',
                    'amb_icase', 'amb_look', 'amb_skip', 'nullable', 'nullable_tok', 'nullable_prio', 'nullable_prio_bytes', 'nullable_skip_prio',
-                   'nullable_sub', 'nullable_look', 'start_look', 'start_wordb', 'undef_sub', 'greedy_dot', 'non_utf8', 'non_utf8_cls', 'non_utf8_sub',
+                   'nullable_sub', 'nullable_look', 'nullable_never_opt', 'nullable_never_star', 'nullable_never_alt', 'nullable_never_bytes', 'nullable_never_skip', 'start_look', 'start_wordb', 'undef_sub', 'greedy_dot', 'non_utf8', 'non_utf8_cls', 'non_utf8_sub',
                    'uni_wordb', 'non_utf8_skip', 'non_utf8_skip_rx', 'non_utf8_tok', 'non_utf8_icase'}
